@@ -804,7 +804,7 @@ class Ctx:
                     if sk in ("Expr", "Semi"):
                         e = st["e"]
                         if e.get("k") == "If" and e.get("else") is None and diverges(e["then"]):
-                            out.append(("not", e["cond"], False))
+                            out.append(("not", e["cond"], False, e))
                     elif sk == "Let":
                         out.append(("let", st))
             elif pk == "Closure":
